@@ -121,7 +121,13 @@ pub fn eval(ctx: &Ctx, case: &Case) {
                             ctx.violation("Sm2PublicKey::to_hex_string", &format!("wrong-hex/{}/{}", form, tag), h.clone(), cj());
                         }
                         same_pub(ctx, "Sm2PublicKey::from_hex_string", &format!("{}/{}", form, tag), guard(|| es(Sm2PublicKey::from_hex_string(&h))), &want, &cj);
-                        same_pub(ctx, "Sm2PublicKey::from_hex_string", &format!("uppercase-{}/{}", form, tag), guard(|| es(Sm2PublicKey::from_hex_string(&h.to_uppercase()))), &want, &cj);
+                        // upper-case hex is not demanded by the property: only "no panic" (and, if accepted, the right point)
+                        ctx.call();
+                        match guard(|| es(Sm2PublicKey::from_hex_string(&h.to_uppercase()))) {
+                            Guard::Done(Ok(pk2)) if ref_point(&pk2.point) != want => ctx.violation("Sm2PublicKey::from_hex_string", &format!("decodes-to-different-point/uppercase/{}", tag), String::new(), cj()),
+                            Guard::Panic(p) => ctx.violation("Sm2PublicKey::from_hex_string", &format!("panic/{}/uppercase", panic_site(&p)), p, cj()),
+                            _ => {}
+                        }
                     }
                     Guard::Panic(p) => ctx.violation("Sm2PublicKey::to_hex_string", &format!("panic/{}", panic_site(&p)), p, cj()),
                 }
